@@ -3,5 +3,6 @@ import InToto.Properties.C14
 #print axioms InToto.C14.every_run_is_finite
 #print axioms InToto.C14.returned_means_complete
 #print axioms InToto.C14.content_accounts_for_every_byte
+#print axioms InToto.C14.unstartable_command_is_an_error
 #print axioms InToto.C14.sequential_drain_can_deadlock
 #print axioms InToto.C14.exit_code_table
